@@ -2,7 +2,8 @@
     Statements are in VekProofs.C19_spec; programs are regenerated from /repo by symx. *)
 From VekLib Require Import Ops RingOps LinAlg MachineInt.
 From VekProofs Require Import C19_spec C19_proofs.
-Require Import ZArith.
+Require Import ZArith NArith.
+From VekModel Require Import ShuffleMask.
 
 Theorem C19_conv : forall C : cring, C19_conv_stmt C.       Proof. exact C19_proofs.C19_conv. Qed.
 Theorem C19_swizzle : forall C : cring, C19_swizzle_stmt C. Proof. exact C19_proofs.C19_swizzle. Qed.
@@ -11,12 +12,26 @@ Theorem C19_color : forall C : cring, C19_color_stmt C.     Proof. exact C19_pro
 Theorem C19_embed : forall C : cring, C19_embed_stmt C.     Proof. exact C19_proofs.C19_embed. Qed.
 Theorem C19_int_invert : C19_int_invert_stmt.               Proof. exact C19_proofs.C19_int_invert. Qed.
 
+(** ShuffleMask4 on arbitrary machine words (hand-written model VekModel.ShuffleMask, tied to the code by the
+    extracted-model correspondence "shufmask"): indices are taken modulo 4 for EVERY word, not only the 256 sampled tuples *)
+Theorem C19_mask_indices : forall a b c d : N,
+  idx (mk a b c d) = (a mod 4, b mod 4, c mod 4, d mod 4)%N /\ (mk a b c d < 256)%N.       Proof. exact idx_mk. Qed.
+Theorem C19_mask_reduce : forall a b c d : N, mk a b c d = mk (a mod 4) (b mod 4) (c mod 4) (d mod 4).  Proof. exact mk_reduce. Qed.
+Theorem C19_mask_shuffle : forall (A : Type) (lo hi : A * A * A * A) (a b c d : N),
+  shuffle_lo_hi lo hi (mk a b c d) = (sel lo (a mod 4), sel lo (b mod 4), sel hi (c mod 4), sel hi (d mod 4)).  Proof. exact @shuffle_any_indices. Qed.
+Theorem C19_mask_eq : forall a b c d a' b' c' d' : N,
+  mk a b c d = mk a' b' c' d' <-> (a mod 4 = a' mod 4 /\ b mod 4 = b' mod 4 /\ c mod 4 = c' mod 4 /\ d mod 4 = d' mod 4)%N.  Proof. exact mk_eq_iff. Qed.
+
 Print Assumptions C19_conv.
 Print Assumptions C19_swizzle.
 Print Assumptions C19_shuffle.
 Print Assumptions C19_color.
 Print Assumptions C19_embed.
 Print Assumptions C19_int_invert.
+Print Assumptions C19_mask_indices.
+Print Assumptions C19_mask_reduce.
+Print Assumptions C19_mask_shuffle.
+Print Assumptions C19_mask_eq.
 
 (** the hypotheses of C19_int_invert are satisfiable: an 8-bit unsigned colour *)
 Example C19_int_example :
